@@ -167,6 +167,29 @@ fn round_robin(st: &mut St, max_calls: usize) {
           }
           DEAD.with(|d| d.set(None));
         }
+        // two (three) independent round-robin stubs in one process, called in every short periodic
+        // interleaving: each spreads ITS calls evenly, whatever the others are doing (seeded change
+        // C20k drew the turns of every stub from one process-wide counter)
+        for pools in 2..=3usize {
+            for period in 1..=4usize {
+                for pat in 0..pools.pow(period as u32) {
+                    let order: Vec<usize> = (0..period).map(|i| (pat / pools.pow(i as u32)) % pools).collect();
+                    let logs: Vec<Log> = (0..pools).map(|_| Rc::new(RefCell::new(vec![]))).collect();
+                    let rrs: Vec<_> = logs.iter().map(|l| RoundRobin::new((0..n).map(|i| Backend { idx: i, log: l.clone() }).collect())).collect();
+                    for c in 0..(6 * period) {
+                        let which = order[c % period];
+                        let f = rrs[which].call(ctx, c as u64);
+                        futures::pin_mut!(f);
+                        let _ = drive(f, 10);
+                        if let Err(e) = balanced(&logs[which].borrow(), n) {
+                            st.failures.push(("C20-rr-unbalanced".into(), format!("n={n}, {pools} independent stubs called in the repeating order {order:?}: stub {which} after {} calls overall: {e}", c + 1)));
+                        }
+                    }
+                    st.evals += 1;
+                    st.distinct.insert(h(&("rr-pools", n, pools, period, pat)));
+                }
+            }
+        }
         // task-level concurrency: 3 calls created, first polls in every order, all stay in flight
         let orders: [[usize; 3]; 6] = [[0, 1, 2], [0, 2, 1], [1, 0, 2], [1, 2, 0], [2, 0, 1], [2, 1, 0]];
         for order in orders {
